@@ -199,6 +199,10 @@ def arith(op, a, b):
     if isinstance(a, UnionV) or isinstance(b, UnionV):
         return pmap(lambda x, y: arith(op, x, y), a, b)
     T = type(op)
+    if (isinstance(a, NoneV) and is_intlike(b)) or (isinstance(b, NoneV) and is_intlike(a)):
+        # Python raises TypeError; in a contract text this only occurs under a guard that excludes
+        # it: the value is left unspecified (a fresh unknown), so nothing can be proved from it
+        return IntV(fresh('undef'))
     if is_intlike(a) and is_intlike(b):
         x, y = to_int(a), to_int(b)
         if T is ast.Add:
